@@ -8,4 +8,5 @@ def main : IO UInt32 :=
     match family with
     | "c05" => C04.checkEng params lines
     | "c05n" => C01.check params lines
+    | "c05d" => C04.checkEng params lines
     | _ => { bad := [s!"unknown family {family}"] })
